@@ -16,13 +16,16 @@ GH_EXTERN const void* GP[8];
 #define g_free_rat      G[6]
 #define g_dtor_rat      G[7]      /* explicit destructor calls on a rational LP */
 #define g_clearrat_calls G[8]     /* clearLPRational() */
+#define g_alloc_tol     G[9]      /* std::make_shared<Tolerances>(..) */
+#define g_dtor_real     G[10]     /* explicit destructor calls on a heap floating-point LP */
 #define g_free_real_p   GP[0]     /* what was freed */
 #define g_free_rat_p    GP[1]
-#define g_dtor_rat_p    GP[2]
 #define gp_pool_real    GP[3]     /* the objects spx_alloc hands out */
 #define gp_pool_rat     GP[4]
 #define gp_pool_stat    GP[5]
 #define gp_pool_set     GP[6]
+#define gp_pool_tol     GP[7]
+#define g_dtor_real_p   GP[2]
 #ifdef __cplusplus
 }
 #endif
